@@ -6,10 +6,12 @@ const G = require('../lib/hgen');
 const { diff, diffClass, stable } = require('../lib/canon');
 
 const OPTS = JSON.stringify({ transformOn: true, optimize: false });
+const OPTS2 = JSON.stringify({ transformOn: true, optimize: true, enableObjectSlots: false, mergeProps: false });
 
 function requests(c) {
-  const reqs = [{ src: H.renderHistory(c.items), want: ['eval'], opts: OPTS }];
-  for (const it of c.items) reqs.push({ src: H.renderAlone(it), want: ['eval'], opts: OPTS });
+  const opts = c.o2 ? OPTS2 : OPTS;
+  const reqs = [{ src: H.renderHistory(c.items), want: ['eval'], opts }];
+  for (const it of c.items) reqs.push({ src: H.renderAlone(it), want: ['eval'], opts });
   return reqs;
 }
 
@@ -47,9 +49,13 @@ module.exports = {
   rule: 'explicit-state BFS over module-item histories (item = syntactic context ∘ lowering, distractor, or statement-level form; all items at length 1, focus×focus pairs, core triples; deeper in the thorough tier); every history is transformed by the real visitor and executed, every item has an observation point that is activated twice (slots invoked), and its canonical value must equal the canonical value of the same item transformed and executed alone. Differential oracle, no hand-written expectation. Distinct = distinct canonical observation vectors.',
   assumptions: ['mock Vue runtime', 'node evaluator', 'distractor assignments re-assign the value already held, so composing items cannot change run-time values by itself'],
   prepare: async (tier) => (tier === 'thorough' ? G.skeleton(2, OPTS) : null),
-  spaces: (tier, prepared) => G.spaces(tier, (items) => ({ items })).concat(tier === 'thorough' ? [G.canonicalSpace(prepared, (items) => ({ items }))] : []),
+  spaces: (tier, prepared) => G.spaces(tier, (items) => ({ items })).concat([{
+    name: 'O2:optimize-on-objectSlots-off-mergeProps-off',
+    bounds: { note: 'focus pairs and core triples again under optimize=true, enableObjectSlots=false, mergeProps=false' },
+    *gen() { for (const a of G.FOCUS) for (const b of G.CORE) { if (G.onceOk([a, b])) yield { items: [a, b], o2: true }; if (G.onceOk([b, a])) yield { items: [b, a], o2: true }; } for (const a of G.MINI) for (const b of G.MINI) for (const d of G.MINI) if (G.onceOk([a, b, d])) yield { items: [a, b, d], o2: true }; },
+  }]).concat(tier === 'thorough' ? [G.canonicalSpace(prepared, (items) => ({ items }))] : []),
   requests, judge,
-  *shrink(c) { for (const items of G.shrinkItems(c.items)) if (items.length) yield { items }; },
-  caseKey: (c) => G.key(c.items),
+  *shrink(c) { for (const items of G.shrinkItems(c.items)) if (items.length) yield { items, o2: c.o2 }; if (c.o2) yield { items: c.items }; },
+  caseKey: (c) => G.key(c.items) + (c.o2 ? ' {optimize eos=off mergeProps=off}' : ''),
   depth: (c) => c.items.length,
 };
